@@ -532,6 +532,24 @@ Theorem C16_src_ch_insert_index_error : forall s (o : obj) (i : Z) (t : option o
          ~ (- new_len <= i < new_len)%Z).
 Proof. exact src_ch_insert_crash_iff. Qed.
 
+(* ---- the operators t // other, t << other, t >> other, from the source text (Graph/SrcGraphEquiv8.v) ---- *)
+From PJ Require Import Graph.SrcGraphEquiv8.
+
+Theorem C16_src_op_floordiv : forall s (o : obj) (vs : list (option obj)), WF s -> hid_tid (hp s) -> o < length (hp s) ->
+  (forall v, In (Some v) vs -> v < length (hp s)) ->
+  src_op_floordiv (S (S (length (hp s)))) (hp s) o vs = lift_v (op_floordiv s o vs) vs.
+Proof. exact src_op_floordiv_eq. Qed.
+
+Theorem C16_src_op_lshift : forall s (t : obj) (vs : list (option obj)), WF s -> hid_tid (hp s) ->
+  (forall v, In (Some v) vs -> hidden (get (hp s) v) = false) ->
+  src_op_lshift (S (S (length (hp s)))) (hp s) t vs = lift_v (op_shift true s t vs) vs.
+Proof. exact src_op_lshift_eq. Qed.
+
+Theorem C16_src_op_rshift : forall s (t : obj) (vs : list (option obj)), WF s -> hid_tid (hp s) ->
+  (forall v, In (Some v) vs -> hidden (get (hp s) v) = false) ->
+  src_op_rshift (S (S (length (hp s)))) (hp s) t vs = lift_v (op_shift false s t vs) vs.
+Proof. exact src_op_rshift_eq. Qed.
+
 Print Assumptions C16_move.
 Print Assumptions C16_move_one.
 Print Assumptions C16_insert.
@@ -593,3 +611,6 @@ Print Assumptions C16_src_pred_remove.
 Print Assumptions C16_src_succ_remove.
 Print Assumptions C16_src_ch_move_one_effect.
 Print Assumptions C16_src_ch_insert_index_error.
+Print Assumptions C16_src_op_floordiv.
+Print Assumptions C16_src_op_lshift.
+Print Assumptions C16_src_op_rshift.
